@@ -1,5 +1,6 @@
 """C17 — entry points for untrusted wire data never panic, abort or hang."""
 import base64
+import copy
 import json
 
 from ..gen import events as ge
@@ -30,7 +31,8 @@ ASSUMPTIONS = ["stated bounds: input <= 256 KiB; HTML element nesting <= 1,024; 
 
 
 def layers(tier):
-    return ["rel", "dbg", "rel:api", "dbg:api", "asan"] if tier == "thorough" else ["rel", "dbg", "rel:api"]
+    # unst: the core probe built with every unstable (MSC) feature of ruma-events
+    return ["rel", "dbg", "unst", "rel:api", "dbg:api", "asan"] if tier == "thorough" else ["rel", "dbg", "unst", "rel:api"]
 
 
 def floors(tier):
@@ -113,6 +115,27 @@ def word_pairs(rng, n):
     return out
 
 
+UNSTABLE_TYPES = ["m.call.member", "org.matrix.msc3401.call.member", "m.beacon_info", "org.matrix.msc3672.beacon_info", "m.beacon",
+                  "org.matrix.msc3672.beacon", "m.poll.start", "m.poll.response", "m.poll.end", "org.matrix.msc3381.poll.start",
+                  "org.matrix.msc3381.poll.response", "org.matrix.msc3381.poll.end", "m.message", "m.emote", "m.image", "m.file", "m.audio",
+                  "m.video", "m.voice", "m.location", "org.matrix.msc1767.message", "org.matrix.msc3245.voice.v2", "m.call.notify",
+                  "org.matrix.msc4075.call.notify", "im.ponies.room_emotes", "m.image_pack", "io.element.functional_members", "m.member_hints",
+                  "m.policy.rule.room", "m.marked_unread", "com.famedly.marked_unread"]
+UNSTABLE_STATE_KEYS = ["", "@user:example.org", "_@user:example.org_DEVICE", "@user:example.org_DEVICE", "_@user:", "_:", "__:", "_",
+                       "_@user:éxample.org_DEVICE", "_@user:\U0001f4a3", "@user:example.org_", "_@user:example.org_", "_@:_", "@:", ":",
+                       "_@user:example.org_DEV_ICE_m.call", "@user:[::1]:80_D"]
+UNSTABLE_CONTENTS = [{}, {"memberships": []}, {"memberships": [{"application": "m.call", "call_id": "", "device_id": "D", "expires": 3600000,
+                                                                     "foci_active": [], "membership_id": "m"}]},
+                     {"application": "m.call", "call_id": "", "device_id": "D", "focus_active": {"type": "livekit", "focus_selection": "oldest_membership"},
+                      "foci_preferred": [], "scope": "m.room"},
+                     {"description": "d", "live": True, "timeout": 60000, "org.matrix.msc3488.asset": {"type": "m.self"}, "org.matrix.msc3488.ts": 1},
+                     {"m.text": [{"body": "b"}]}, {"org.matrix.msc1767.text": "t"},
+                     {"m.poll": {"question": {"m.text": [{"body": "q"}]}, "answers": [{"m.id": "a", "m.text": [{"body": "x"}]}]}, "m.text": [{"body": "q"}]},
+                     {"m.relates_to": {"rel_type": "m.reference", "event_id": "$e"}, "m.selections": ["a"]},
+                     {"images": {"a": {"url": "mxc://a/b"}}, "pack": {"display_name": "p"}}, {"service_members": ["@a:b"]}, {"unread": True},
+                     {"entity": "@a:*", "reason": "r", "recommendation": "m.ban"}]
+
+
 def core_commands(ctx, n):
     """(command, entry-point family) pairs for the core probe"""
     rng = ctx.rng
@@ -120,13 +143,26 @@ def core_commands(ctx, n):
     default_ruleset = None
     for _ in range(n):
         r = rng.random()
-        if r < 0.22:
+        if r < 0.20:
             t = mutated_event_text(rng)
             out.append(({"op": "event_de", "enum": rng.choice(ENUMS), "text": t}, "event_de"))
             if rng.random() < 0.3:
                 out.append(({"op": "raw_ops", "text": t, "fields": ["type", "content", "x"]}, "raw"))
             if rng.random() < 0.3:
                 out.append(({"op": "canonical_json", "text": t}, "canonical_json"))
+        elif r < 0.25:
+            # event types and state keys that only exist behind unstable (MSC) features: known types on the
+            # `unst` layer, unknown ones elsewhere
+            et = rng.choice(UNSTABLE_TYPES)
+            c = copy.deepcopy(rng.choice(UNSTABLE_CONTENTS))
+            for _ in range(rng.randint(0, 2)):
+                c = mu.structural(rng, c)
+            if not isinstance(c, dict):
+                c = {"x": c}
+            ev = ge.envelope(rng, et, c, rng.choice(["full", "sync", "stripped"]), state_key=rng.choice(UNSTABLE_STATE_KEYS + [None, None]))
+            out.append(({"op": "event_de", "enum": rng.choice(ENUMS), "text": mu.dumps(ev)}, "event_de"))
+            if rng.random() < 0.3:
+                out.append(({"op": "content_roundtrip", "kind": rng.choice(["state", "message_like"]), "ev_type": et, "content": mu.dumps(c), "tolerant": True}, "event_de"))
         elif r < 0.30:
             # push: flatten / get_match on arbitrary *valid* JSON events with hostile numbers
             ev = seed_event(rng)
@@ -411,6 +447,9 @@ def shard(ctx):
         elif layer == "asan":
             if ctx.shard < 8:
                 run_layer(ctx, layer, core[::6], CANARY_CORE)
+        elif layer == "unst":
+            # only the entry points whose code depends on the unstable features: typed events and contents
+            run_layer(ctx, layer, [(c, f) for c, f in core if f in ("event_de", "raw")], CANARY_CORE)
         else:
             run_layer(ctx, layer, core, CANARY_CORE)
     if ctx.shard == 0:
